@@ -363,6 +363,23 @@ def rule_fresh_objects(ctx: Ctx) -> None:
         return True
 
     extra = [a for a in appenders if a != f"{BASE}.Pipeline.add" and not like_add(a)]
+    # ... and EVERY function that is appended is registered: the registration sits on every normal path that appends (a plain
+    # callable that Pipeline wraps itself needs it just like a PipeFunc that was copied)
+    from ..cfg import ENTRY as _EN, EXIT as _EX
+
+    for q in appenders:
+        fn_ = P.functions[q]
+        if fn_.cls is None or fn_.cls.qualname != pl.qualname:
+            continue
+        cfg_ = ctx.cfg(fn_)
+        app = cfg_.nodes(lambda s_: any(isinstance(c, ast.Call) and isinstance(c.func, ast.Attribute) and c.func.attr == "append" and norm(c.func.value) == "self.functions" for c in ast.walk(s_)) and not isinstance(s_, (ast.If, ast.For, ast.While, ast.With, ast.Try)))
+        reg = set(cfg_.nodes(lambda s_: any(isinstance(c, ast.Call) and isinstance(c.func, ast.Attribute) and c.func.attr == "add" and norm(c.func.value).endswith("._pipelines") for c in ast.walk(s_)) and not isinstance(s_, (ast.If, ast.For, ast.While, ast.With, ast.Try))))
+        if not app:
+            continue
+        ok_ = bool(reg) and all(cfg_.must_pass(_EN, a_, reg, normal_only=True) or cfg_.must_pass(a_, _EX, reg, normal_only=True) for a_ in app)
+        ctx.tri("7-fresh-objects", fn_, cfg_.stmt[app[0]], ok_, bool(reg) and not ok_, f"{fn_.name}: every appended function is registered with the pipeline (`f._pipelines.add(self)`)",
+                f"{fn_.name} appends a function on a path that does not register the pipeline with it (`_pipelines.add(self)` only happens on some branches): `pipeline[name].update_renames / update_defaults / update_bound` "
+                "on such a member never clears the pipeline's caches - a rename collision or an inconsistent default introduced that way is not rejected before user functions run", "registration not found", key=f"registered {fn_.name}")
     ctx.add("7-fresh-objects", f"{BASE}.Pipeline.functions", "", not extra, "functions are appended only in Pipeline.add" if not extra else f"functions are also appended in {extra}: they enter a pipeline without the copy / registration / validation of Pipeline.add", key="appenders")
     ad = pl.methods["add"]
     cfg = ctx.cfg(ad)
@@ -428,6 +445,18 @@ def rule_details(ctx: Ctx) -> None:
             f"only `{norm(sliced[0]['iter']) if sliced else ''}` of the other groups is considered when deciding which intermediate outputs to expose: an output needed by an earlier group is hidden", "iteration over the groups not recognised", key="simplify-outputs")
     us = pf.methods["update_scope"]
     ctx.tri("8-details", us, us.node, "update_renames(" in norm(us.node) and "_prepend_name_with_scope(" in norm(us.node), False, "update_scope is a rename of exactly the selected names", "", "update_scope not recognised", key="scope-is-rename")
+
+
+def rule_scope_outputs_are_single_names(ctx: Ctx) -> None:
+    """The names a pipeline scopes are SINGLE names (`outputs={"std"}`, all_output_names): the names a function owns have to be
+    spelled out with at_least_tuple(f.output_name) - `{f.output_name}` holds the tuple itself for a multi-output function and
+    matches none of them: the producer keeps its names while its consumers are renamed."""
+    fn = ctx.prog.func("pipefunc._pipeline._base.Pipeline.update_scope")
+    whole = [x for x in ast.walk(fn.node) if isinstance(x, ast.Set) and any(isinstance(e, ast.Attribute) and e.attr == "output_name" for e in x.elts)]
+    whole += [x for x in ast.walk(fn.node) if isinstance(x, ast.Call) and dotted(x.func) in ("set", "frozenset") and x.args and isinstance(x.args[0], (ast.List, ast.Tuple)) and any(isinstance(e, ast.Attribute) and e.attr == "output_name" for e in x.args[0].elts)]
+    ctx.add("1-name-space", fn, whole[0] if whole else fn.node, not whole, "a function's own names are spelled out with at_least_tuple before they are compared with the scoped names" if not whole else
+            f"`{norm(whole[0])}` holds the WHOLE output name: for a multi-output function that is the tuple, which is none of the single names being scoped - the producer of ('mean', 'std') stays unscoped "
+            "while every consumer is renamed to s.mean / s.std (the edge is cut: defaults are used silently, or the call fails)", key="scope-outputs-single-names")
 
 
 def rule_scope_inputs_are_root_args(ctx: Ctx) -> None:
@@ -497,6 +526,18 @@ def rule_nested_is_a_pipefunc(ctx: Ctx) -> None:
         ctx.add("9-details", op, from_inner[0] if from_inner else op.node, not from_inner, "the parameter table of a NestedPipeFunc does not require identifier names" if not from_inner else
                 f"`{norm(from_inner[0])[:60]}` is built from the input names of the internal pipeline, which are dotted after update_scope: inspect.Parameter rejects them - "
                 "update_scope followed by nest_funcs raises ValueError(\"'s.a' is not a valid parameter name\"), the composition cannot be constructed", key="nested-parameter-names")
+    # the tuple a nested function hands back follows its DECLARED output order; the result dict of the internal pipeline is in
+    # computation order
+    wrap = P.classes.get(f"{PFM}._NestedFuncWrapper")
+    wc = dict.get(wrap.methods, "__call__") if wrap is not None else None
+    if wc is not None:
+        d_w = Defs(wc)
+        comps = [x for r in walk_no_nested(wc.node) if isinstance(r, ast.Return) and r.value is not None for x in ast.walk(d_w.resolve(r.value)) if isinstance(x, (ast.GeneratorExp, ast.ListComp))]
+        over_dict = [x for x in comps if any(isinstance(g.iter, ast.Call) and isinstance(g.iter.func, ast.Attribute) and g.iter.func.attr in ("items", "values", "keys") for g in x.generators)]
+        over_names = [x for x in comps if any("output_name" in norm(d_w.resolve(g.iter)) for g in x.generators)]
+        ctx.tri("9-details", wc, (over_dict or over_names or [wc.node])[0], bool(over_names) and not over_dict, bool(over_dict), "the outputs are handed back in the declared order (`for name in self.output_name`)",
+                f"`{norm(over_dict[0])[:70] if over_dict else ''}` takes the outputs in the order of the result dict - the order in which the internal pipeline computed them - not in the declared `output_name` order: "
+                "whenever the two differ the values land on the wrong output names", "how the output tuple is assembled was not recognised", key="nested-declared-order")
     fn = dict.get(nf.methods, "func")
     if fn is None:
         ctx.add("9-details", nf.qualname, nf.loc, None, "UNDECIDED: NestedPipeFunc.func not found", key="nested-picks-internal-names")
@@ -625,7 +666,7 @@ def fs_owner(P):
 
 
 def check(ctx: Ctx) -> None:
-    for rule in (rule_name_space, rule_nested_is_a_pipefunc, rule_scope_inputs_are_root_args, rule_bound_not_mapped, rule_copy_carries, rule_no_inplace, rule_result_keys, rule_sort_keys, rule_pickle_state, rule_foreign_writes, rule_fresh_objects, rule_details):
+    for rule in (rule_name_space, rule_nested_is_a_pipefunc, rule_scope_inputs_are_root_args, rule_scope_outputs_are_single_names, rule_bound_not_mapped, rule_copy_carries, rule_no_inplace, rule_result_keys, rule_sort_keys, rule_pickle_state, rule_foreign_writes, rule_fresh_objects, rule_details):
         ctx.run(rule)
 
 
